@@ -388,8 +388,8 @@ theorem okInv_g (env : Env) (f : Nat) (ih : OkInv env f) :
     obtain ⟨s2, _, _⟩ := ih.c _ _ _ h2
     obtain ⟨s3, _, _⟩ := ih.c _ _ _ h3
     split at h
-    · simp only [R.res_bind, bind_eq_ok, R.res_lift] at h
-      obtain ⟨_, _, ⟨der, t1⟩, h4, k, hk', ⟨salt, t2⟩, h5, ⟨token, t3⟩, h6, h⟩ := h
+    · simp only [R.res_bind, bind_eq_ok, R.res_lift, R.res_reparse] at h
+      obtain ⟨_, _, _, _, ⟨der, t1⟩, h4, k, hk', ⟨salt, t2⟩, h5, ⟨token, t3⟩, h6, h⟩ := h
       dsimp only at hk' h5 h6 h
       simp only [R.res_ok, Except.ok.injEq, Prod.mk.injEq] at h
       obtain ⟨rfl, rfl⟩ := h
